@@ -149,7 +149,7 @@ CHECKS = {
                   "capability fold); payload (four zero bytes + text, LE16 length) for every text length; the remote MANAGER as a state machine "
                   "over a file system whose database files are written, replaced and removed and any number of manager objects "
                   "(Model.Manager): manager_first_load, manager_fresh_reads_current, manager_stable (the same object for ever), "
-                  "manager_isolated / manager_answer_independent, manager_returns_stored (for every history every remote handed out is "
+                  "manager_isolated / manager_answer_independent, manager_command_spec and manager_capabilities (the property itself through the manager), manager_returns_stored (for every history every remote handed out is "
                   "mkRemote of a set some version of the manager's OWN file held under that id). Correspondence on generated IR sets "
                   "loaded through the real classes and on manager histories with real files (object identity and a command per answer), "
                   "Spec judge on every build and on every manager answer.",
